@@ -199,6 +199,60 @@ func genScenario(r *vh.Rand, kind int) scen {
 
 // the wall-clock scenario: a stake locked "now + 6 s" (transaction time) is unlocked in the next block;
 // executions started before that instant refuse, executions started after it allow.
+// fan-in scenarios: a new_allocation_request whose blobber list names two or more existing providers of another
+// type (registered authorizers, miners, sharders share the provider:<id> key space): every such item fails in
+// getBlobber with an error other than value-not-present, GetItemsByIDs returns the one that arrives first.
+// shape: "same-provider-type" (authorizers only), "same-provider-type-nodes" (miners/sharders only),
+// "mixed-provider-types" (both).
+func fanScenario(r *vh.Rand, shape string) scen {
+	s := scen{}
+	s.Miners, s.Sharders, s.Authorizers = 3, 2, 4
+	s.Triggers = []string{"fan-in", shape}
+	auths := []string{"$auth1", "$auth2", "$auth3", "$auth4"}
+	nodes := []string{"$m1", "$m2", "$m3", "$s1", "$s2"}
+	pick := func(xs []string, k int) []string {
+		var out []string
+		for _, i := range r.Perm(len(xs))[:k] {
+			out = append(out, xs[i])
+		}
+		return out
+	}
+	var ids []string
+	switch shape {
+	case "same-provider-type":
+		ids = pick(auths, r.Range(2, 4))
+	case "same-provider-type-nodes":
+		ids = pick(nodes, r.Range(2, 5))
+	default:
+		ids = append(pick(auths, r.Range(1, 3)), pick(nodes, r.Range(1, 3))...)
+	}
+	if r.Chance(1, 3) {
+		ids = append(ids, "$a9") // not a provider at all: value not present (ordered by index)
+	}
+	p := r.Perm(len(ids))
+	var list, tickets []string
+	for _, i := range p {
+		list = append(list, fmt.Sprintf("%q", ids[i]))
+		tickets = append(tickets, `""`)
+	}
+	req := func(list, tickets []string) string {
+		return fmt.Sprintf(`{"data_shards":1,"parity_shards":1,"size":1073741824,"blobbers":[%s],"blobber_auth_tickets":[%s],"read_price_range":{"min":0,"max":100},"write_price_range":{"min":0,"max":100}}`,
+			strings.Join(list, ","), strings.Join(tickets, ","))
+	}
+	// an unrelated successful transaction first, then the request (twice: the second on the state the first left),
+	// then per failing item a probe naming it twice
+	last := []stxn{{From: fmt.Sprintf("a%d", r.Range(1, 4)), SC: "storage", Fn: "new_allocation_request", Input: req(list, tickets), Value: 1000},
+		{From: "a5", SC: "storage", Fn: "new_allocation_request", Input: req(list, tickets), Value: 1000}}
+	for _, x := range ids {
+		if x != "$a9" {
+			q := fmt.Sprintf("%q", x)
+			last = append(last, stxn{From: "a6", SC: "storage", Fn: "new_allocation_request", Input: req([]string{q, q}, []string{`""`, `""`}), Value: 1000, Probe: true})
+		}
+	}
+	s.Blocks = []sblock{{Txns: []stxn{{From: "a2", SC: "faucet", Fn: "pour", Input: "null"}}}, {Txns: last}}
+	return s
+}
+
 func clockScenario() scen {
 	var s scen
 	s.Name = "wall-clock-lock-period"
@@ -245,10 +299,17 @@ func execRuns(self, dir string, s scen, cfgs []runCfg) ([]result, []string) {
 			cmd.Dir = dir
 			if o, err := cmd.CombinedOutput(); err != nil {
 				tail := string(o)
-				if len(tail) > 600 {
-					tail = tail[len(tail)-600:]
+				first := ""
+				for _, ln := range strings.Split(tail, "\n") {
+					if strings.HasPrefix(ln, "panic: ") || strings.HasPrefix(ln, "fatal error: ") {
+						first = ln + " ... "
+						break
+					}
 				}
-				errs[i] = fmt.Sprintf("worker failed: %v: %s", err, tail)
+				if len(tail) > 400 {
+					tail = tail[len(tail)-400:]
+				}
+				errs[i] = fmt.Sprintf("worker failed: %v: %s%s", err, first, tail)
 				return
 			}
 			rb, err := os.ReadFile(out)
@@ -541,6 +602,95 @@ func main() {
 			}
 		}
 	}
+	// fan-in scenario: the transactions of the last block are executed Repeat times on the same state by a cold
+	// node (GOMAXPROCS 16); a warm node (one state cache since the registrations) executes the scenario once
+	var mu sync.Mutex
+	handleFan := func(s scen) {
+		shape := s.Triggers[len(s.Triggers)-1]
+		cold := s
+		cold.Name = s.Name + "-cold"
+		cold.Repeat = o.N(300, 3000)
+		rsC, errC := execRuns(self, o.Out, cold, []runCfg{{procs: 16, cold: true}})
+		warm := s
+		warm.Name = s.Name + "-warm"
+		rsW, errW := execRuns(self, o.Out, warm, []runCfg{{procs: 16, cold: false}})
+		var vs []viol
+		add := func(sig, f string, a ...interface{}) {
+			vs = append(vs, viol{"C06:" + sig, s.Name + ": " + fmt.Sprintf(f, a...)})
+		}
+		last := s.Blocks[len(s.Blocks)-1]
+		diverged := false
+		if errC[0] != "" {
+			add("worker-failed", "cold execution: %s", errC[0])
+		} else {
+			for t, v := range rsC[0].Variants {
+				var ks []string
+				for k := range v {
+					ks = append(ks, k)
+				}
+				sort.Strings(ks)
+				if len(v) > 1 && last.Txns[t].Probe {
+					continue
+				}
+				if len(v) > 1 {
+					diverged = true
+					add("fan-in-error-depends-on-schedule:"+last.Txns[t].Fn+":"+shape, "the same transaction on the same state, %d executions in one process (GOMAXPROCS 16): %d times %q, %d times %q: "+
+						"GetItemsByIDs returns the error of whichever goroutine finishes first", cold.Repeat, v[ks[0]], short(strings.SplitN(ks[0], "|", 2)[0]), v[ks[1]], short(strings.SplitN(ks[1], "|", 2)[0]))
+				}
+			}
+		}
+		switch {
+		case strings.Contains(errW[0], "get trie node not copyable"):
+			add("node-panics-on-cached-value-of-other-type", "a node that holds the registered miner/sharder nodes in its state cache (it executed their registration or a payFees) panics in a goroutine of GetItemsByIDs - "+
+				"the process exits - when the request names them as blobbers: StateContext.GetTrieNode finds a cached MinerNode for provider:<id> and the requested StorageNode is not copyable; a node with a cold cache fails the transaction instead")
+		case errW[0] != "":
+			add("worker-failed", "warm execution: %s", errW[0])
+		case errC[0] == "" && !diverged:
+			v2, _ := compare(s, []result{rsC[0], rsW[0]}, []string{"", ""})
+			vs = append(vs, v2...)
+		}
+		mu.Lock()
+		defer mu.Unlock()
+		rep.Count("scenario-fan-in-" + shape)
+		key, _ := json.Marshal(s)
+		rep.Case(string(key), true, s)
+		if errC[0] == "" && len(rsC[0].Outputs) == len(last.Txns) {
+			// model case: what each failing item gives on its own, and what the requests gave
+			var items []string
+			single := true
+			for t, tx := range last.Txns {
+				if tx.Probe {
+					single = single && len(rsC[0].Outputs[t]) == 1
+					for out := range rsC[0].Outputs[t] {
+						items = append(items, fmt.Sprint(digest(out)))
+					}
+				}
+			}
+			if !single {
+				add("fan-in-probe-not-deterministic", "a request naming one failing item twice gives more than one output")
+			}
+			for t, tx := range last.Txns {
+				if !tx.Probe {
+					var obs []string
+					for out := range rsC[0].Outputs[t] {
+						obs = append(obs, fmt.Sprint(digest(out)))
+					}
+					sort.Strings(obs)
+					cf.Add("(DcFanIn " + vh.List(items) + " " + vh.List(obs) + ")")
+					rep.CaseInputs = append(rep.CaseInputs, s)
+				}
+			}
+		}
+		for _, v := range dedupe(vs) {
+			dup := false
+			for _, old := range rep.Violations {
+				dup = dup || old.Signature == v.sig
+			}
+			if !dup {
+				rep.Violate(v.sig, v.desc, s)
+			}
+		}
+	}
 	finish := func() {
 		files, err := cf.Write(o.Out, "C06")
 		must(err)
@@ -553,15 +703,28 @@ func main() {
 		if hasTrig(rs, "clock") {
 			rs.BaseTime = time.Now().Unix() + 6
 		}
-		handle(rs)
+		if hasTrig(rs, "fan-in") {
+			handleFan(rs)
+		} else {
+			handle(rs)
+		}
 		finish()
 		return
 	}
 	rnd := vh.NewRand(o.Seed)
 	// the clock scenario runs concurrently with the others (it sleeps)
 	var wg sync.WaitGroup
-	var mu sync.Mutex
-	wg.Add(1)
+	wg.Add(2)
+	go func() {
+		defer wg.Done()
+		frnd := vh.NewRand(o.Seed ^ 0xfa17)
+		shapes := []string{"same-provider-type", "mixed-provider-types", "same-provider-type-nodes"}
+		for i := 0; i < o.N(6, 30); i++ {
+			s := fanScenario(frnd, shapes[i%3])
+			s.Name = fmt.Sprintf("f%d-%s", i, shapes[i%3])
+			handleFan(s)
+		}
+	}()
 	go func() {
 		defer wg.Done()
 		s := clockScenario()
